@@ -1,25 +1,40 @@
 (* C03 - The verifier never returns what the issuer did not sign, whatever the holder sends. *)
 From Coq Require Import List String Ascii Bool Arith.
-Require Import SDJ.Json SDJ.Model2 SDJ.Restore2 SDJ.ATree SDJ.T2c SDJ.T2h SDJ.T2m.
+Require Import SDJ.Json SDJ.Model2 SDJ.Restore2 SDJ.ATree SDJ.T2c SDJ.T2h SDJ.T2m SDJ.T2o.
 Local Open Scope string_scope.
 
-(* For every conformant token (annotated tree t: any shape, any marking, decoys anywhere) and every
-   duplicate-free list L of presented strings - own, foreign, altered, malformed, in any order - none of
-   which hashes to a decoy: the pass loop of restore_disclosures either rejects or ends in view (own L) t,
-   the tree in which exactly the hidden nodes whose own disclosure and all enclosing disclosures are in L
-   are opened.  PARTIAL: the duplicate/structure checks that follow the pass loop, and lists with
-   repetitions, are covered by C03_* theorems still to be added (see DESIGN.md section 7, C03). *)
-Theorem C03_sound_passes_partial :
+(* For every conformant token (annotated tree t: any shape, any marking, decoys anywhere, nesting up to the
+   depth limit) and every duplicate-free list L of presented strings - own, foreign, altered, malformed, in
+   any order - none of which hashes to a decoy: the complete restore_disclosures of the model (decode all,
+   passes until no progress, duplicate and structure checks) either rejects or returns view (own L) t, the
+   tree in which exactly the hidden nodes whose own disclosure and all enclosing disclosures are in L are
+   opened. Order independence is immediate: own L depends on the set only.
+   Remaining gap to the property text: lists with repetitions (the correspondence run covers them: a repeated
+   member disclosure is rejected, a repeated array-element disclosure is invisible the second time). *)
+Theorem C03_sound :
   forall (H : string -> string) (enc : list json -> string) (dec : string -> dec_result) (show_nat : nat -> string),
     (forall x y, H x = H y -> x = y) ->
     (forall ps, dec (enc ps) = DJson (JArr ps)) ->
     forall t : atree, wf H enc t -> NoDup (alldigs H enc t) -> NoDup (hdigs H enc t) -> aheight t <= 129 ->
     forall L : list string, NoDup L ->
       (forall s, In s L -> In (H s) (alldigs H enc t) -> In (H s) (hdigs H enc t)) ->
-      restore_passes H dec show_nat (blind H enc t) L = Err \/
-      (exists ps, restore_passes H dec show_nat (blind H enc t) L = Ok (view H enc (ownS H L) t, ps)).
-Proof. exact restore_disclosures_spec. Qed.
-Print Assumptions C03_sound_passes_partial.
+      restore_disclosures H dec show_nat (blind H enc t) L = Err \/
+      (exists ps, restore_disclosures H dec show_nat (blind H enc t) L = Ok (view H enc (ownS H L) t, ps)).
+Proof. exact restore_full_spec. Qed.
+Print Assumptions C03_sound.
+
+(* completeness: when every presented string decodes, the presentation is accepted *)
+Theorem C03_complete :
+  forall (H : string -> string) (enc : list json -> string) (dec : string -> dec_result) (show_nat : nat -> string),
+    (forall x y, H x = H y -> x = y) ->
+    (forall ps, dec (enc ps) = DJson (JArr ps)) ->
+    forall t : atree, wf H enc t -> NoDup (alldigs H enc t) -> NoDup (hdigs H enc t) -> aheight t <= 129 ->
+    forall (L : list string) (ds : list disc), NoDup L ->
+      (forall s, In s L -> In (H s) (alldigs H enc t) -> In (H s) (hdigs H enc t)) ->
+      decode_all H dec L = Ok ds ->
+      exists ps, restore_disclosures H dec show_nat (blind H enc t) L = Ok (view H enc (ownS H L) t, ps).
+Proof. exact restore_full_ok. Qed.
+Print Assumptions C03_complete.
 
 (* stripping the bookkeeping from a view is the property's projection: original claims minus unopened nodes *)
 Theorem C03_strip_is_projection :
